@@ -400,6 +400,41 @@ theorem width_out_of_range (T : Tables) (fd : FontDict) (code : Int)
   rw [he]
   rfl
 
+/-! ## Type3 FontMatrix: which matrix the font gets -/
+
+/-- An array of six numbers is taken as it is. -/
+theorem type3_matrix_usable (a b c d e f : Rat) :
+    type3Matrix (.list [some a, some b, some c, some d, some e, some f]) = (a, b, c, d, e, f) := by
+  simp [type3Matrix, T3_MATRIX_LEN]
+
+/-- Every other FontMatrix entry - absent, not an array, an array of another length, an array with an element that
+is not a number - gives the usual glyph space of 1/1000 (constants regenerated from `PDFType3Font.__init__`). -/
+theorem type3_matrix_default (ms : MatSpec) (h : matUsable ms = false) :
+    type3Matrix ms = ((1 : Rat) / 1000, 0, 0, (1 : Rat) / 1000, 0, 0) := by
+  cases ms with
+  | absent => simp [type3Matrix, T3_MATRIX_LEN, T3_DEFAULT_MATRIX]
+  | notList => simp [type3Matrix, T3_MATRIX_LEN, T3_DEFAULT_MATRIX]
+  | list xs =>
+    simp only [matUsable] at h
+    have hc : (xs.length != T3_MATRIX_LEN || !(xs.all Option.isSome)) = true := by
+      simp only [T3_MATRIX_LEN]
+      cases h1 : (xs.length == 6) <;> cases h2 : xs.all Option.isSome <;> simp_all
+    simp only [type3Matrix, hc, if_true, T3_DEFAULT_MATRIX]
+
+/-- The advance of a Type3 glyph under an unusable FontMatrix: Widths entry (else MissingWidth) / 1000. -/
+theorem type3_scale_default (T : Tables) (fd : FontDict) (code : Int) (ms : MatSpec) (h3 : fd.isType3 = true)
+    (hm : fd.fontMatrix = type3Matrix ms) (hbad : matUsable ms = false) :
+    glyphAdv (modelFont T fd) code =
+      (match widthsEntry fd code with
+       | some w => w
+       | none => missingWidth fd) * ((1 : Rat) / 1000) := by
+  rw [type3_scale T fd code h3, hm, type3_matrix_default ms hbad]
+
+example : matUsable (.list [some 1, some 0, some 0]) = false ∧ matUsable .absent = false ∧ matUsable .notList = false ∧
+    matUsable (.list [some 1, some 0, some 0, none, some 0, some 0]) = false ∧
+    matUsable (.list [some 2, some 0, some 0, some 2, some 0, some 0, some 0]) = false ∧
+    matUsable (.list [some 2, some 0, some 0, some 2, some 0, some 0]) = true := by decide
+
 /-! ## The regenerated tables of pdfminer -/
 
 /-- The tables regenerated from glyphlist.py / latin_enc.py satisfy the table facts (kernel computation over
